@@ -1,6 +1,6 @@
 (* Ctlog/Mono.v — monotone ghost histories: acknowledgements are never retracted, and only
    staging bundles are ever discarded (by the log; tampering is a separate event) *)
-From SL Require Import Base.BytesProofs Ctlog.Model.
+From SL Require Import Base.BytesProofs Ctlog.Model Ctlog.Recompute.
 Open Scope N_scope.
 
 Section M.
@@ -169,6 +169,9 @@ Proof.
     eapply ext_trans; [apply set_i_ext|eassumption].
   - destruct (get_inst (w_insts w) i) as [x|]; [|apply ext_refl]. apply set_i_ext.
   - destruct o; apply ext_same; reflexivity.
+  - destruct (get_inst (w_insts w) i) as [x|]; [|apply ext_refl].
+    destruct (step_recompute_spec sha w i x key lim) as [E|(p & ls & c1 & why & _ & _ & _ & E)];
+      rewrite E; [apply ext_refl|apply set_i_ext].
 Qed.
 
 Theorem run_ext evs : forall w, ext w (run evs w).
